@@ -7,7 +7,7 @@
 From Apko Require Import Base.Prelude Base.Regex Generated.Regexes Generated.VersionConsts Generated.C03Version
   Model.Version Model.Resolver Spec.ResolveSpec Spec.ResolveMultiSpec
   Proofs.ResolveProofs Proofs.ResolveProofs2 Proofs.C14Proofs Proofs.ResolveTheorems Proofs.ResolveEnvelope
-  Proofs.ResolveClosure.
+  Proofs.ResolveClosure Proofs.ResolveNoPanic.
 Open Scope string_scope. Open Scope list_scope. Open Scope nat_scope.
 
 (* ================= generic ================================================= *)
@@ -47,8 +47,10 @@ Record mfacts (R : resolver) : Prop := {
      my_provides k (s_name (d_pos d)) || my_provides k (s_raw (d_pos d)) = false;
   mf_virtual : forall k pv k', In k (r_pkgs R) -> In pv (k_provs k) -> In k' (r_pkgs R) -> k_name k' <> s_name pv;
   mf_entry : forall n l y, alookup n (r_names R) = Some l -> In y l ->
-     exists w, winner_of R (nm R y) = Some w /\ In w l /\ (forall z, In z l -> nm R z = nm R y) /\
-               forall z, In z l -> z = w \/ beats R n w z = true;
+     (exists w, winner_of R (nm R y) = Some w /\ In w l /\ (forall z, In z l -> nm R z = nm R y) /\
+                forall z, In z l -> z = w \/ beats R n w z = true) \/
+     ((forall z, In z l -> is_winner R z = true) /\
+      forall z pv, In z l -> In pv (k_provs (getp R z)) -> s_name pv = n -> s_version pv = "");
   mf_sib : forall i j, valid R i -> valid R j -> i <> j -> nm R i = nm R j ->
      p_origin (k_pkg (getp R i)) = p_origin (k_pkg (getp R j)) /\ p_pin (k_pkg (getp R i)) = "";
   mf_dep : forall k d, In k (r_pkgs R) -> In d (k_deps k) -> dep_ok_b R d = true
@@ -76,16 +78,21 @@ Proof.
     apply negb_true_iff in A2. assert (X : existsb (fun k'0 => String.eqb (k_name k'0) (s_name pv)) (r_pkgs R) = true).
     { apply existsb_exists. exists k'. split; [exact Hk' | apply String.eqb_eq; exact E]. }
     congruence.
-  - intros n l y E Hy. apply alookup_In in E. specialize (A3 _ E). unfold m_entry_b in A3. cbn [fst snd] in A3.
-    destruct l as [|x t] eqn:El; [contradiction|]. rewrite <- El in *.
-    apply andb_true_iff in A3. destruct A3 as [B1 B2]. rewrite forallb_forall in B1.
-    assert (N : forall z, In z l -> nm R z = nm R x).
-    { intros z Hz. specialize (B1 z Hz). unfold same_name in B1. apply String.eqb_eq in B1. exact B1. }
-    fold (nm R x) in B2. destruct (winner_of R (nm R x)) as [w|] eqn:EW; [|discriminate].
-    apply andb_true_iff in B2. destruct B2 as [B2 B3]. rewrite forallb_forall in B3.
-    exists w. rewrite (N y Hy). split; [exact EW|]. split; [apply mem_pid_In; exact B2|].
-    split; [intros z Hz; rewrite (N z Hz); reflexivity|].
-    intros z Hz. specialize (B3 z Hz). apply orb_true_iff in B3. destruct B3 as [B3|B3]; [left; apply Nat.eqb_eq; exact B3 | right; exact B3].
+  - intros n l y E Hy. apply alookup_In in E. specialize (A3 _ E). unfold m_entry_b in A3. apply orb_true_iff in A3.
+    destruct A3 as [A3|A3]; [left | right].
+    + unfold m_entry_one_name_b in A3. cbn [fst snd] in A3.
+      destruct l as [|x t] eqn:El; [contradiction|]. rewrite <- El in *.
+      apply andb_true_iff in A3. destruct A3 as [B1 B2]. rewrite forallb_forall in B1.
+      assert (N : forall z, In z l -> nm R z = nm R x).
+      { intros z Hz. specialize (B1 z Hz). unfold same_name in B1. apply String.eqb_eq in B1. exact B1. }
+      fold (nm R x) in B2. destruct (winner_of R (nm R x)) as [w|] eqn:EW; [|discriminate].
+      apply andb_true_iff in B2. destruct B2 as [B2 B3]. rewrite forallb_forall in B3.
+      exists w. rewrite (N y Hy). split; [exact EW|]. split; [apply mem_pid_In; exact B2|].
+      split; [intros z Hz; rewrite (N z Hz); reflexivity|].
+      intros z Hz. specialize (B3 z Hz). apply orb_true_iff in B3. destruct B3 as [B3|B3]; [left; apply Nat.eqb_eq; exact B3 | right; exact B3].
+    + unfold m_entry_pure_virtual_b in A3. cbn [fst snd] in A3. apply andb_true_iff in A3. destruct A3 as [B1 B2].
+      rewrite forallb_forall in B1, B2. split; [exact B1|]. intros z pv Hz Hpv Hn. specialize (B2 z Hz). rewrite forallb_forall in B2.
+      specialize (B2 pv Hpv). rewrite Hn, String.eqb_refl in B2. cbn [negb orb] in B2. apply String.eqb_eq. exact B2.
   - intros i j Vi Vj Hij E. specialize (A4 i (proj2 (all_pids_In R i) Vi)). rewrite forallb_forall in A4.
     specialize (A4 j (proj2 (all_pids_In R j) Vj)).
     apply orb_true_iff in A4. destruct A4 as [A4|A4].
@@ -194,7 +201,7 @@ Section Choice.
     best_package R n ex os pin cands = Some b -> is_winner R b = true /\ In b cands.
   Proof.
     intros E Hsub Hex Hhas HB. pose proof (best_package_In _ _ _ _ _ _ _ HB) as Hb. split; [|exact Hb].
-    destruct (mf_entry R MF n l b E (Hsub b Hb)) as [w [EW [Hwl [Hn Hdom]]]].
+    destruct (mf_entry R MF n l b E (Hsub b Hb)) as [[w [EW [Hwl [Hn Hdom]]]]|[Hall _]]; [|apply Hall; apply Hsub; exact Hb].
     destruct (Nat.eq_dec b w) as [->|Hne]; [eapply winner_is; [exact EW | reflexivity]|].
     exfalso. apply Hne. pose proof (Hhas b w Hb EW Hne) as Hwc.
     assert (G : best_package R n ex os pin cands = Some w).
@@ -269,7 +276,9 @@ Section Filter.
   Proof.
     intros E Hdq Hfd Hfr Hcn Hpos Hcov Hy EW Hne.
     pose proof (filter_packages_sub _ _ _ _ _ Hy) as [Hyl Hyndq].
-    destruct (mf_entry R MF n l y E Hyl) as [w' [EW' [Hwl [Hn _]]]]. rewrite EW in EW'. inversion EW'; subst w'. clear EW'.
+    destruct (mf_entry R MF n l y E Hyl) as [[w' [EW' [Hwl [Hn _]]]]|[Hall _]].
+    2:{ exfalso. apply Hne. pose proof (is_winner_of R y (Hall y Hyl)) as Ey. rewrite EW in Ey. inversion Ey. reflexivity. }
+    rewrite EW in EW'. inversion EW'; subst w'. clear EW'.
     pose proof (entry_valid R Hwf n l y E Hyl) as Vy. pose proof (entry_valid R Hwf n l w E Hwl) as Vw.
     assert (Nwy : nm R w = nm R y) by (apply Hn; exact Hwl).
     assert (Ww : is_winner R w = true) by (eapply winner_is; eassumption).
@@ -297,11 +306,11 @@ Section Filter.
 
   (* ---- what keeps dq_ok ------------------------------------------------------------------ *)
   (* a winner's conflicts are non-winners *)
-  Lemma disqualify_conflicts_dq_ok i dq dq' : valid R i -> is_winner R i = true -> dq_ok R dq ->
+  Lemma disqualify_conflicts_dq_ok i dq dq' : sound R -> valid R i -> is_winner R i = true -> dq_ok R dq ->
     (forall pv, In pv (k_provs (getp R i)) -> listed (r_names R) (s_name pv) i) ->
     disqualify_conflicts R i dq = Ok dq' -> dq_ok R dq'.
   Proof.
-    intros Vi Wi Hdq Hl H. pose proof (disqualify_conflicts_mono _ _ _ _ H) as I.
+    intros Hs Vi Wi Hdq Hl H. pose proof (disqualify_conflicts_mono _ _ _ _ H) as I.
     apply (dq_ok_grow R dq dq' Hdq I). revert H. unfold disqualify_conflicts.
     set (P := fun d : list pid => forall z, In z d -> In z dq \/ is_winner R z = false).
     intros H. apply (fold_res_inv P _ _) with (a' := dq') in H; [exact H| |].
@@ -309,12 +318,22 @@ Section Filter.
       apply (fold_res_inv P _ _) with (a' := a') in E; [exact E| |intros a0 E0; inversion E0; subst; exact Pa].
       intros d j d' Hj Pd E1. destruct (Nat.eqb j i) eqn:Eji; [inversion E1; subst; exact Pd|].
       destruct (mem_pid j d); [inversion E1; subst; exact Pd|].
-      destruct (conflicting_version (s_c pv) (getp R j)) as [[|]|]; inversion E1; subst; [|exact Pd].
+      destruct (conflicting_version (s_c pv) (getp R j)) as [[|]|] eqn:ECV; inversion E1; subst; [|exact Pd].
       intros z [<-|Hz]; [|apply Pd; exact Hz]. right.
       destruct (Hl pv Hpv) as [l' [El' Hil]]. rewrite EL in El'. inversion El'; subst l'.
-      destruct (mf_entry R MF _ _ i EL Hil) as [w [EW [_ [Hn _]]]].
-      destruct (is_winner R j) eqn:Wj; [|reflexivity]. exfalso. apply Nat.eqb_neq in Eji. apply Eji.
-      apply (winner_uniq R j i Wj Wi). apply Hn. exact Hj.
+      destruct (mf_entry R MF _ _ i EL Hil) as [[w [EW [_ [Hn _]]]]|[_ Hunv]].
+      + destruct (is_winner R j) eqn:Wj; [|reflexivity]. exfalso. apply Nat.eqb_neq in Eji. apply Eji.
+        apply (winner_uniq R j i Wj Wi). apply Hn. exact Hj.
+      + (* a pure virtual: conflictingVersion says no *)
+        exfalso. pose proof (entry_valid R Hwf _ _ j EL Hj) as Vj.
+        assert (Nj : k_name (getp R j) <> s_name pv).
+        { apply (mf_virtual R MF (getp R i) pv (getp R j)); [apply getp_in; exact Vi | exact Hpv | apply getp_in; exact Vj]. }
+        unfold conflicting_version in ECV. fold (s_version pv) in ECV. rewrite (Hunv i pv Hil Hpv eq_refl) in ECV. cbn [String.eqb negb] in ECV.
+        fold (s_name pv) in ECV. apply String.eqb_neq in Nj. rewrite Nj in ECV.
+        destruct (Hs _ _ _ EL Hj) as [A|[pv' [Hpv' A]]]; [apply String.eqb_neq in Nj; contradiction|].
+        destruct (List.find (fun pv0 => String.eqb (s_name pv0) (s_name pv)) (k_provs (getp R j))) as [pf|] eqn:EF.
+        * destruct (find_some _ _ EF) as [F1 F2]. apply String.eqb_eq in F2. rewrite (Hunv j pf Hj F1 F2) in ECV. discriminate.
+        * discriminate.
     - intros a E. inversion E; subst. intros z Hz. left. exact Hz.
   Qed.
 
